@@ -44,7 +44,7 @@ func projectFilter(f *configv1.Filter) map[string]any {
 	} else if o.GetClientSecretRef() != nil {
 		out["secret"] = "ref:" + o.GetClientSecretRef().GetName()
 	}
-	out["header"], out["preamble"] = o.GetIdToken().GetHeader(), o.GetIdToken().GetPreamble()
+	out["header"], out["preamble"] = strings.ToLower(o.GetIdToken().GetHeader()), o.GetIdToken().GetPreamble() // (header names are case-insensitive)
 	out["cb"] = o.GetCallbackUri()
 	out["loPath"], out["loRedirect"] = o.GetLogout().GetPath(), o.GetLogout().GetRedirectUri()
 	out["authz"], out["token"], out["conf"] = o.GetAuthorizationUri(), o.GetTokenUri(), o.GetConfigurationUri()
